@@ -1,0 +1,73 @@
+/*
+ * Verification event hook (deterministic-simulation harness).
+ *
+ * Everything in this file is inert unless the library is compiled with
+ * -DSLU_MT_VERIF.  With the guard off SLU_MT_VERIF_EVENT() expands to
+ * ((void)0) and no symbol is added to the library.
+ *
+ * With the guard on, every SLU_MT_VERIF_EVENT() site calls the function
+ * pointer slu_mt_verif_hook (NULL unless a simulator installed one): the
+ * callee records the event and may treat it as a scheduling point.
+ */
+#ifndef __SLU_MT_VERIF_H
+#define __SLU_MT_VERIF_H
+
+#ifdef SLU_MT_VERIF
+
+#ifdef __cplusplus
+extern "C" {
+#endif
+typedef void (*slu_mt_verif_hook_t)(int kind, long pnum, long a, long b,
+				    long c, const void *ptr);
+extern slu_mt_verif_hook_t slu_mt_verif_hook;
+#ifdef __cplusplus
+}
+#endif
+
+enum slu_mt_verif_kind {
+    SLU_EV_SPIN = 1,      /* ptr = flag spun on (await)                       */
+    SLU_EV_INIT,          /* a = n, ptr = pxgstrf_shared, c = (long) options   */
+    SLU_EV_SCHED_ENTER,   /* a = panel just finished (or EMPTY)                */
+    SLU_EV_SCHED_CS,      /* a = finished, b = taken, c = bcol; inside C.S.    */
+    SLU_EV_SNODE_RELEASE, /* a = jcol, b = w ; before the release loop         */
+    SLU_EV_COL_RELEASE,   /* a = jj ; before spin_locks[jj] = 0                */
+    SLU_EV_COL_RELEASED,  /* a = jj ; after spin_locks[jj] = 0                 */
+    SLU_EV_UCOL_DONE,     /* a = jj ; after copy_to_ucol                       */
+    SLU_EV_PANEL_DONE,    /* a = jcol ; before STATE(jcol) = DONE              */
+    SLU_EV_PANEL_DONE2,   /* a = jcol ; after  STATE(jcol) = DONE              */
+    SLU_EV_THREAD_EXIT,   /* a = info                                          */
+    SLU_EV_BUSY_SNAPSHOT, /* a = jcol, b = bcol in, c = bcol out, ptr = lbusy  */
+    SLU_EV_DFS_SNODE,     /* a = jj, b = krep, c = pruned?                     */
+    SLU_EV_DFS_LEAVE,     /* a = jj, b = krep                                  */
+    SLU_EV_WAIT,          /* a = jcol, b = kcol ; before await                 */
+    SLU_EV_UPD_BEGIN,     /* a = jcol (target panel/col), b = fsupc, c = krep  */
+    SLU_EV_UPD_END,       /* a = jcol, b = fsupc, c = krep                     */
+    SLU_EV_UPD_STEP,      /* a = jj (target column), b = kfnz, c = krep        */
+    SLU_EV_NEW_SUPER,     /* a = new nsuper ; inside NSUPER_LOCK               */
+    SLU_EV_SUPER_OPEN,    /* a = jcol, b = nsuper ; jcol starts supernode      */
+    SLU_EV_SUPER_JOIN,    /* a = jcol, b = nsuper ; jcol joins jcol-1's snode  */
+    SLU_EV_ALLOC,         /* a = memtype, b = prev_next, c = num, ptr=&jcol    */
+    SLU_EV_ALLOC_DYN,     /* a = jcol, b = prev nextlu, c = num ; in LULOCK    */
+    SLU_EV_PIVOT,         /* a = jcol, b = nsupr - nsupc (candidates), c = nsupc */
+    SLU_EV_PIVOT_ZERO,    /* a = jcol ; all candidates exactly zero            */
+    SLU_EV_ROWSWAP,       /* a = jcol, b = fsupc                               */
+    SLU_EV_PIVOT_DONE,    /* a = jcol, b = pivrow                              */
+    SLU_EV_PRUNE_BEGIN,   /* a = jcol, b = irep                                */
+    SLU_EV_PRUNE_MID,     /* a = jcol, b = irep ; xprune set, ispruned not yet */
+    SLU_EV_PRUNE_END,     /* a = jcol, b = irep                                */
+    SLU_EV_STACK,         /* a = op, b = bytes, c = which_end, ptr = &stack    */
+    SLU_EV__COUNT
+};
+
+#define SLU_MT_VERIF_EVENT(kind, pnum, a, b, c, ptr) \
+    do { if ( slu_mt_verif_hook ) \
+	     slu_mt_verif_hook((kind), (long)(pnum), (long)(a), (long)(b), \
+			       (long)(c), (const void *)(ptr)); } while (0)
+
+#else  /* !SLU_MT_VERIF */
+
+#define SLU_MT_VERIF_EVENT(kind, pnum, a, b, c, ptr) ((void)0)
+
+#endif /* SLU_MT_VERIF */
+
+#endif /* __SLU_MT_VERIF_H */
